@@ -92,7 +92,10 @@ func permutations(n int) [][]int {
 func h64(b []byte) uint64 {
 	h := fnv.New64a()
 	h.Write(b)
-	return h.Sum64()
+	if v := h.Sum64(); v != 0 {
+		return v
+	}
+	return 1 // 0 is reserved for "not reached"
 }
 
 func digestPath(tier string) string {
@@ -300,19 +303,27 @@ func run(c *core.Ctx) {
 		fmt.Fprintln(os.Stderr, "C05:", err)
 		os.Exit(2)
 	}
-	off, compared := 0, 0
+	off, compared, notReached := 0, 0, 0
 	for pi, ds := range all {
 		for i, d := range ds {
 			if off+8 > len(buf) {
 				fmt.Fprintln(os.Stderr, "C05: digest stream too short")
 				os.Exit(2)
 			}
-			if binary.LittleEndian.Uint64(buf[off:]) != d {
+			// digest 0 = the case was not reached before the time budget of one of the two
+			// processes ran out (loaded machine): not compared, run not exhaustive
+			if other := binary.LittleEndian.Uint64(buf[off:]); other == 0 || d == 0 {
+				notReached++
+			} else if other != d {
 				c.Violation(fmt.Sprintf("second process produces different deterministic bytes type=%s case#%d", plans(c)[pi].name, i), nil)
 			}
 			off += 8
 			compared++
 		}
+	}
+	if notReached > 0 {
+		c.Extra("second_process_cases_not_reached_before_the_budget_ran_out", notReached)
+		c.Exhaustive = false
 	}
 	c.Extra("second_process_cases_compared", compared)
 	c.Assume("Go map iteration order is not yet owned by the explorer: it is varied by 12 repeated marshals per message (sampling); permutations of insertion/assignment order, clones, rebuilds and the second process are enumerated exhaustively")
